@@ -116,7 +116,7 @@ pub fn c11(tier: &str) -> i32 {
         .flat_map(|p| {
             [Cfg::new(p), Cfg::new(p).flags(true, true).muts(&FULL, 0.5, true), Cfg::new(p).range(0, 3), Cfg::new(p).range(500, 400)]
                 .into_iter()
-                .flat_map(move |c| (0..seeds).map(move |s| (c.clone(), s)))
+                .flat_map(move |c| (crate::report::sweep_base(seeds)..crate::report::sweep_base(seeds) + seeds).map(move |s| (c.clone(), s)))
         })
         .collect();
     let bad: Vec<(Finding, Cfg, u64)> = sw
